@@ -339,6 +339,45 @@ KNOWN_F16D = live_finding("F16d")
 KNOWN_F16A = live_finding("F16a")
 BOUNDED = [double_quoted_every_code_point, double_quoted_loop_bookkeeping, vcr_matrix, vcr_interaction_sequences, har_matrix]
 
+
+# ------------------------------------------------------------------------------------------------- Request.from_prepared_request: what the reports say was sent is what was sent
+RECD = "schemathesis.engine.recorder:"
+
+
+def _utf8_of(it, s_):
+    import z3
+    from pyvc.values import Opaque, ref_sort, z3_of
+
+    return Opaque("Utf8Bytes", z3.Function("str:utf8", z3.StringSort(), ref_sort("Utf8Bytes"))(z3_of(s_)), "Utf8Bytes")
+
+
+R.spec_funcs["utf8_of"] = _utf8_of
+R.spec_funcs["is_text"] = lambda it, v: isinstance(v, str) or type(v).__name__ == "SStr"
+
+
+class _RequestClass(D):
+    def make(self, it, name, idx=()):
+        return it.resolve_class(RECD + "Request")
+
+
+R.contract(
+    RECD + "Request.from_prepared_request",
+    prop="C16",
+    args={"cls": _RequestClass(), "prepared": Obj("spec:PreparedRequest", body=OneOf(NoneT, Str, Opq("BytesBody")), url=Str, method=Str, headers=KeyedDict(Str, Str, sizes=(0, 1, 2)))},
+    setup=None,
+    raises=[],
+    ensures={
+        # faithful to the traffic: method, URL and every header of the request that went out, each header value as a one-element list; nothing added
+        "method_and_url_of_the_sent_request": "result.method == prepared.method and result.uri == prepared.url",
+        "every_header_once_nothing_added": "length(result.headers) == length(prepared.headers) and all(k in result.headers and length(result.headers[k]) == 1 and result.headers[k][0] == prepared.headers[k] for k in prepared.headers)",
+        "no_body_stays_no_body": "iff(result.body is None, prepared.body is None) and iff(result.body_size is None, prepared.body is None)",
+        "binary_body_kept_as_is": "implies(is_instance(prepared.body, 'BytesBody'), result.body is prepared.body and result.body_size == length(prepared.body))",
+        "text_body_stored_as_its_utf8_bytes": "implies(is_text(prepared.body), result.body == utf8_of(prepared.body) and result.body_size == length(utf8_of(prepared.body)))",
+    },
+    bounded_note="up to 2 request headers",
+    replayable=False,
+)
+
 LEVEL_TEXT = ("JUnit handler crash-freedom is a deductive obligation over an arbitrary statistic (pyvc/z3). YAML escaping is decided by complete enumeration of all code points "
               "plus a bounded loop-bookkeeping check; cassette structure by a native matrix. Level other: most of the property lives in string formats outside the deductive encoding.")
 LEVEL_NOTE = "Trusted: PyYAML / junit-xml / harfile (E6), Statistic summary contract, pyvc semantics (E9)."
